@@ -24,6 +24,8 @@ DASHMAP_INSERT = {'dashmap::DashMap::entry', 'dashmap::DashMap::insert'} | {pre 
 DASHMAP_MUT = DASHMAP_REMOVE | DASHMAP_INSERT | {'dashmap::DashMap::alter', 'dashmap::DashMap::alter_all', 'dashmap::DashMap::get_mut', 'dashmap::DashMap::iter_mut',
                                                   'dashmap::DashMap::shrink_to_fit'} | {pre + x for x in _ENTRY_MUT for pre in ('dashmap::', 'dashmap::mapref::entry::')}
 CLOCK_READS = {'std::time::Instant::now'}
+CHAN_RECV = {'crossbeam_channel::Receiver::try_recv', 'crossbeam_channel::Receiver::recv', 'crossbeam_channel::Receiver::try_iter',
+             'crossbeam_channel::Receiver::iter', 'crossbeam_channel::Receiver::recv_timeout'}
 CHAN_SEND = {'crossbeam_channel::Sender::try_send', 'crossbeam_channel::Sender::send', 'crossbeam_channel::Sender::send_timeout'}
 
 
@@ -143,7 +145,7 @@ def upsert_role(ctx):
         for nid, b in prog.bodies.items():
             if b.kind == 'closure' or not nid.startswith('sync::'):
                 continue
-            is_cons = any(prog.call_targets(b, t)[1] == 'crossbeam_channel::Receiver::try_recv' and 'WriteOp' in t.get('self_ty', {}).get('s', '') for _, t in b.calls())
+            is_cons = any(prog.call_targets(b, t)[1] in CHAN_RECV and 'WriteOp' in t.get('self_ty', {}).get('s', '') for _, t in b.calls())
             if not is_cons:
                 continue
             sx = ctx.symex(inline_depth=0, loop_visits=2, inline_pred=lambda n_, bb, d: False)
